@@ -76,6 +76,12 @@ def main():
         bad += 0 if ok else 1
     if not args.props:
         json.dump({"scale": args.scale, "seed": args.seed, "results": results}, open(args.out, "w"), indent=1)
+    elif os.path.exists(args.out):
+        # a re-run of some properties replaces their entries in the recorded result
+        old = json.load(open(args.out))
+        if old.get("scale") == args.scale and old.get("seed") == args.seed:
+            old["results"].update(results)
+            json.dump(old, open(args.out, "w"), indent=1)
     return 3 if bad else 0
 
 
